@@ -37,7 +37,8 @@ package netmc
 
 // Writers: once closed they report ErrClosedConn and do not touch the encoder; an encoder error closes.
 //@ func (*minecraftConn).Write
-//@   props C44
+//@   props C44 C15
+//@   at-call (Writer).Write as encsame: assert [same-slice-to-the-encoder] ref(arg1) == ref(payload) && len(arg1) == len(payload)
 //@   at-call Closed as cl: assert ref(arg0) == c
 //@   at-call (Writer).Write as enc: assert called(cl) && !res(cl)
 //@   at-call closeOnWriteErr as cwe: assert arg0 == c && arg1 == res(enc, 1)
@@ -176,3 +177,4 @@ package netmc
 //@   at-call NewEncryptWriter as mk: assert ref(arg0) == w.writeBuf && ref(arg1) == ref(secret) && len(arg1) == len(secret)
 //@   at-call SetWriter as set: assert [installed-only-on-success] called(mk) && res(mk, 1) == nil && arg1 == res(mk, 0)
 //@   ensures [bad-secret-installs-nothing] called(mk) && (res(mk, 1) != nil ==> !called(set) && result != nil) && (res(mk, 1) == nil ==> called(set) && result == nil)
+
